@@ -27,7 +27,7 @@ ASSUMPTIONS = [
     "diag(user noise by control name)",
     "matrix tolerance 1e-9 relative to max(1,|ref|, |G||P||G|^T + |V||M||V|^T entrywise with "
     "running-error scales)",
-    "covariances SPD with cond <= 1e6; |inputs| <= 1e3; dt in [1e-3, 1]",
+    "covariances SPD with cond <= 1e6; |inputs| <= 1e3; dt in [1e-3, 1] plus dt = 0, |dt| <= 1e-9 and negative dt",
 ]
 
 N = {"quick": {"direct": 48, "runtime": 8, "transform": 8, "fit": 2},
@@ -52,6 +52,7 @@ def floors(tier):
             "counters": {"process_model_contract_evaluated": n["direct"] * 4,
                          "purity_checks": n["direct"] * 4,
                          "idempotence_checks": n["direct"] * 2,
+                         "dt_zero_tiny_or_negative_cases": n["direct"] * 2,
                          "calls_via_runtime": n["runtime"] * 3,
                          "calls_via_transform": n["transform"] * 3,
                          "calls_via_fit": n["fit"] * 10}}
@@ -113,6 +114,15 @@ def _direct(R, rng, defn, b, cse, ctx):
         cov = monitors.cov_from_matrix(ekf.Covariance, P, names)
         ct = ekf.Control(**{c: pt[c] for c in defn["control"]})
         dt = float(pt[defn["dt"]])
+        # "for all dt": also zero-length, tiny and backwards steps
+        if pi == 1:
+            dt = 0.0
+        elif pi == 2:
+            dt = rng.choice([1e-12, -1e-10, 5e-10])
+        elif pi == 3:
+            dt = -dt
+        pt[defn["dt"]] = dt
+        R.stats.inc("dt_zero_tiny_or_negative_cases" if pi in (1, 2, 3) else "dt_ordinary_cases")
         try:
             if defn["control"] or pi % 2:
                 r1 = ekf.process_model(dt, st, cov, ct)
